@@ -491,42 +491,44 @@ def run_warnings():
                 cases.append(("min", [ii.min, 1, 2]))
         for tag, vals in cases:
             for scalar in (False, True):
+                # factors < 1 only: nothing overflows, so a RuntimeWarning can only be unyt's own
                 for route, stmt in (("to", "q.to('m')"), ("in_units", "q.in_units('m')"), ("to_value", "q.to_value('m')"), ("convert_to_units", "q.convert_to_units('m')"),
                                     ("in_base", "q.in_base()"), ("convert_to_base", "q.convert_to_base()"), ("in_cgs", "q.in_cgs()"), ("convert_to_mks", "q.convert_to_mks()"),
-                                    ("to_equivalent", "q.to_equivalent('Hz', 'spectral')"), ("convert_to_equivalent", "q.convert_to_equivalent('Hz', 'spectral')"),
-                                    ("add-second-operand", "other + q"), ("add-first-operand", "q + other"), ("less", "other < q"),
+                                    ("to_equivalent", "t.to_equivalent('J', 'thermal')"), ("convert_to_equivalent", "t.convert_to_equivalent('J', 'thermal')"),
+                                    ("add-second-operand", "other + q"), ("less", "other < q"),
                                     ("setitem", "arr[0:1] = q")):
                     key = "C17[large-warning:%s:%s:%s]" % (route, short(dt), tag)
                     R.case(key + str(scalar), nontrivial=True)
-                    q = mk(vals, dt, "km", scalar)
+                    q = mk(vals, dt, "mm", scalar)
+                    t = mk(vals, dt, "K", scalar)
                     other = unyt_array(np.array([1, 2, 3], dtype=dt), "m")
                     arr = unyt_array(np.array([1, 2, 3], dtype=dt), "m")
                     with warnings.catch_warnings(record=True) as w:
                         warnings.simplefilter("always")
                         try:
-                            with np.errstate(all="ignore"):
-                                exec(stmt, {"q": q, "other": other, "arr": arr})
+                            with np.errstate(over="warn", invalid="warn", divide="warn", under="ignore"):
+                                exec(stmt, {"q": q, "other": other, "arr": arr, "t": t})
                         except Exception:  # noqa
                             continue
                     wfam = {"setitem": "in_units", "convert_to_base": "convert_to_units", "convert_to_mks": "convert_to_units",
                             "less": "binary"}.get(route, FAMILY.get(route, route))
                     wdt = "int16" if d.itemsize == 2 else "int32/64"
                     wtag = {"first-unrepresentable": "threshold-off-by-one", "negative": "threshold-off-by-one"}.get(tag, tag)
-                    tested.setdefault((wfam, wdt), set()).add(wtag)
+                    tested.setdefault((wfam, wdt), set()).add((short(dt), scalar, tag))
                     if not any(issubclass(x.category, RuntimeWarning) for x in w):
-                        missing.setdefault((wfam, wdt), []).append((wtag, "%s with %s %s km: no RuntimeWarning although |value| > 2**%d cannot be held by the %d-byte float" % (
+                        missing.setdefault((wfam, wdt), []).append(((short(dt), scalar, tag), wtag, "%s with %s %s (q in mm, t in K): no RuntimeWarning although |value| > 2**%d cannot be held by the %d-byte float" % (
                             stmt, dt, vals[:1] if scalar else vals, m, max(2, d.itemsize)),
-                            "q = mk(%r, %r, 'km', %r)\nother = unyt.unyt_array(np.array([1, 2, 3], dtype=%r), 'm'); arr = other.copy()\n"
-                            "with warnings.catch_warnings(record=True) as w:\n    warnings.simplefilter('always')\n    %s\n"
+                            "q = mk(%r, %r, 'mm', %r); t = mk(%r, %r, 'K', %r)\nother = unyt.unyt_array(np.array([1, 2, 3], dtype=%r), 'm'); arr = other.copy()\n"
+                            "with warnings.catch_warnings(record=True) as w:\n    warnings.simplefilter('always')\n"
+                            "    with np.errstate(over='warn', invalid='warn', divide='warn', under='ignore'):\n        %s\n"
                             "print([str(x.message) for x in w])\nsys.exit(0 if any(issubclass(x.category, RuntimeWarning) for x in w) else 1)\n" % (
-                                vals, dt, scalar, dt, stmt)))
+                                vals, dt, scalar, vals, dt, scalar, dt, stmt)))
     for (fam, sdt), items in missing.items():
-        tags = {t for t, _, _ in items}
-        if tags == tested[(fam, sdt)]:
-            t, what, body = items[0]
+        if {c for c, _, _, _ in items} == tested[(fam, sdt)]:      # no case of this family warns at all
+            _, t, what, body = items[0]
             fail("C17[large-warning:%s:%s:never-warns]" % (fam, sdt), what, body)
         else:
-            for t, what, body in items:
+            for _, t, what, body in items:
                 fail("C17[large-warning:%s:%s:%s]" % (fam, sdt, t), what, body)
 
 
